@@ -175,9 +175,9 @@ Proof.
   - right. cbn [s_arr]. lia.
 Qed.
 
-Lemma go_remove_ok : forall h v s, wf h s -> ok_step h (s_arr s) (go_remove h v s).
+Lemma go_remove_one_ok : forall h v s, wf h s -> ok_step h (s_arr s) (go_remove_one h v s).
 Proof.
-  intros h v s (Wa & Wl). unfold go_remove.
+  intros h v s (Wa & Wl). unfold go_remove_one.
   destruct (index_of v (view h s)) as [i|] eqn:E.
   - apply index_of_lt in E. unfold view in E. rewrite firstn_length in E.
     unfold ok_step. cbn [fst snd s_arr s_len]. split; [split|split].
@@ -189,6 +189,21 @@ Proof.
     + now left.
   - unfold ok_step. cbn [fst snd s_arr s_len]. split; [apply ext_refl|]. split; [split; assumption|now left].
 Qed.
+
+Lemma go_remove_loop_ok : forall fuel h v s, wf h s ->
+  ok_step h (s_arr s) (go_remove_loop fuel h v s).
+Proof.
+  induction fuel as [|f IH]; intros h v s W; cbn [go_remove_loop].
+  - unfold ok_step. cbn [fst snd]. split; [apply ext_refl|]. split; [exact W|now left].
+  - destruct (index_of v (view h s)).
+    + pose proof (go_remove_one_ok h v s W) as H1.
+      destruct (go_remove_one h v s) as [h1 s1].
+      eapply ok_step_trans; [exact H1|]. apply IH. apply H1.
+    + unfold ok_step. cbn [fst snd]. split; [apply ext_refl|]. split; [exact W|now left].
+Qed.
+
+Lemma go_remove_ok : forall h v s, wf h s -> ok_step h (s_arr s) (go_remove h v s).
+Proof. intros. unfold go_remove. now apply go_remove_loop_ok. Qed.
 
 Lemma go_addnew_ok : forall h v s, wf h s -> ok_step h (s_arr s) (go_addnew h v s).
 Proof.
@@ -217,18 +232,18 @@ Proof.
     eapply ok_step_trans; [exact H1|]. apply go_remove_ok. apply H1.
 Qed.
 
-(* what the OWNER sees: remove deletes the first occurrence, addnew appends
-   unless present -- whether or not the append happens in place *)
+(* what the OWNER sees: remove deletes every occurrence (one per round of its
+   loop), addnew appends unless present -- whether or not the append happens in place *)
 Definition remove_first (v : string) (l : list string) : list string :=
   match index_of v l with
   | None => l
   | Some i => firstn i l ++ skipn (S i) l
   end.
 
-Lemma view_go_remove : forall h v s, wf h s ->
-  view (fst (go_remove h v s)) (snd (go_remove h v s)) = remove_first v (view h s).
+Lemma view_go_remove_one : forall h v s, wf h s ->
+  view (fst (go_remove_one h v s)) (snd (go_remove_one h v s)) = remove_first v (view h s).
 Proof.
-  intros h v s (Wa & Wl). unfold go_remove, remove_first.
+  intros h v s (Wa & Wl). unfold go_remove_one, remove_first.
   destruct (index_of v (view h s)) as [i|] eqn:E; [|reflexivity].
   apply index_of_lt in E. unfold view in *. rewrite firstn_length in E.
   cbn [fst snd s_arr s_len].
@@ -241,6 +256,59 @@ Proof.
   rewrite firstn_all2 by lia.
   rewrite firstn_firstn, skipn_firstn_comm.
   replace (Init.Nat.min i (s_len s)) with i by lia. reflexivity.
+Qed.
+
+(* all occurrences are gone, everything else stays in order *)
+Definition neqb (v x : string) : bool := negb (v =? x).
+
+Lemma filter_no_occurrence : forall v l, index_of v l = None -> filter (neqb v) l = l.
+Proof.
+  induction l as [|x t IH]; cbn [index_of filter]; intros H; [reflexivity|].
+  unfold neqb at 1.
+  destruct (v =? x); [discriminate|]. cbn [negb].
+  destruct (index_of v t); [discriminate|]. now rewrite IH.
+Qed.
+
+Lemma filter_remove_first : forall v l i, index_of v l = Some i ->
+  filter (neqb v) (firstn i l ++ skipn (S i) l) = filter (neqb v) l /\
+  S (length (firstn i l ++ skipn (S i) l)) = length l.
+Proof.
+  induction l as [|x t IH]; cbn [index_of]; intros i H; [discriminate|].
+  destruct (v =? x) eqn:E.
+  - inversion H; subst.
+    assert (N : neqb v x = false) by (unfold neqb; rewrite E; reflexivity).
+    change (firstn 0 (x :: t) ++ skipn 1 (x :: t)) with t.
+    cbn [filter length]. rewrite N. auto.
+  - destruct (index_of v t) as [j|]; [|discriminate]. inversion H; subst.
+    destruct (IH j eq_refl) as (F & L).
+    assert (N : neqb v x = true) by (unfold neqb; rewrite E; reflexivity).
+    change (firstn (S j) (x :: t)) with (x :: firstn j t).
+    change (skipn (S (S j)) (x :: t)) with (skipn (S j) t).
+    rewrite <- app_comm_cons. cbn [filter length]. rewrite N, F.
+    split; [reflexivity|lia].
+Qed.
+
+Lemma view_go_remove_loop : forall fuel h v s, wf h s -> length (view h s) <= fuel ->
+  view (fst (go_remove_loop fuel h v s)) (snd (go_remove_loop fuel h v s)) =
+  filter (neqb v) (view h s).
+Proof.
+  induction fuel as [|f IH]; intros h v s W L; cbn [go_remove_loop].
+  - cbn [fst snd]. destruct (view h s); [reflexivity|cbn in L; lia].
+  - destruct (index_of v (view h s)) as [i|] eqn:E.
+    + pose proof (go_remove_one_ok h v s W) as H1.
+      pose proof (view_go_remove_one h v s W) as V1.
+      destruct (go_remove_one h v s) as [h1 s1]. cbn [fst snd] in V1.
+      unfold remove_first in V1. rewrite E in V1.
+      destruct (filter_remove_first _ _ _ E) as (F & Ln).
+      rewrite IH; [rewrite V1; exact F|apply H1|rewrite V1; lia].
+    + cbn [fst snd]. symmetry. now apply filter_no_occurrence.
+Qed.
+
+Lemma view_go_remove : forall h v s, wf h s ->
+  view (fst (go_remove h v s)) (snd (go_remove h v s)) = filter (neqb v) (view h s).
+Proof.
+  intros h v s W. unfold go_remove. apply view_go_remove_loop; [exact W|].
+  unfold view. rewrite firstn_length. lia.
 Qed.
 
 Lemma view_go_addnew : forall h v s, wf h s ->
@@ -515,7 +583,7 @@ Proof.
 Qed.
 
 Lemma owner_view : forall h v s, wf h s ->
-  view (fst (go_remove h v s)) (snd (go_remove h v s)) = remove_first v (view h s) /\
+  view (fst (go_remove h v s)) (snd (go_remove h v s)) = filter (neqb v) (view h s) /\
   view (fst (go_addnew h v s)) (snd (go_addnew h v s)) =
   (if has v (view h s) then view h s else view h s ++ [v]).
 Proof. intros h v s W. split; [now apply view_go_remove|now apply view_go_addnew]. Qed.
